@@ -289,6 +289,61 @@ def r17_5(ctx, counts) -> RuleResult:
     return res
 
 
+def r17_6(ctx, counts) -> RuleResult:
+    model: Model = ctx.model
+    res = RuleResult(
+        'R17.6', 'SERIALIZER-TEXT-SURGERY',
+        'Two idioms that edit serialized text in elementpath/serialization.py are wrong for '
+        'every input that is not tiny: (a) `str.rstrip/lstrip/strip(<non-literal>)` removes a SET '
+        'of characters, not a suffix — `text.rstrip(elem.tail)` eats the end of the element '
+        'when the tail shares characters with it and leaves the escaped form of `&`, `<`, `>` '
+        'behind; (b) the chunks returned by `tostringlist()` are arbitrary pieces of the output '
+        '(about 8 KiB each for ElementTree): they are joined with the empty string, a separator '
+        'lands inside tags and text. Every strip call in the module takes a string literal or '
+        'nothing; every join applied to a tostringlist() result uses an empty separator.')
+    mod = model.modules.get('elementpath.serialization')
+    if mod is None:
+        raise AnalysisError('elementpath/serialization.py vanished')
+    n = 0
+    for f in sorted((g for g in model.all_functions() if g.module is mod), key=lambda q: q.key):
+        chunk_names = {t.id for st in walk_local(f.node) if isinstance(st, ast.Assign)
+                       and isinstance(st.value, ast.Call)
+                       and dotted(st.value.func).split('.')[-1] == 'tostringlist'
+                       for t in st.targets if isinstance(t, ast.Name)}
+        for c in walk_local(f.node):
+            if not (isinstance(c, ast.Call) and isinstance(c.func, ast.Attribute)):
+                continue
+            if c.func.attr in ('rstrip', 'lstrip', 'strip') and c.args:
+                n += 1
+                lit = isinstance(c.args[0], ast.Constant)
+                res.instances.append(f'{f.key}: `{stmt_text(c)[-50:]}` literal character set={lit}')
+                if lit:
+                    res.ok()
+                else:
+                    res.fail(finding('R17.6', f, c, f'{c.func.attr}({stmt_text(c.args[0])[:20]})',
+                                     f'`…{stmt_text(c)[-60:]}` strips the characters of a run-time '
+                                     f'string as a set: serialize(b) for <a><b>x</b>a&amp;b</a> '
+                                     f'gave `<b>x</b>a&amp;`'))
+            if c.func.attr == 'join' and c.args and isinstance(c.args[0], ast.Name) \
+                    and c.args[0].id in chunk_names:
+                n += 1
+                sep = c.func.value
+                empty = isinstance(sep, ast.Constant) and sep.value in ('', b'')
+                res.instances.append(f'{f.key}: tostringlist() chunks joined with '
+                                     f'{stmt_text(sep)}: empty={empty}')
+                if empty:
+                    res.ok()
+                else:
+                    res.fail(finding('R17.6', f, c, f'chunks joined with {stmt_text(sep)}',
+                                     f'`{stmt_text(c)[:50]}` joins the pieces returned by '
+                                     f'tostringlist() with {stmt_text(sep)}: the separator lands '
+                                     f'inside tags and text of any document larger than one chunk'))
+    counts['serializer_text_edits'] = n
+    if n < 2:
+        raise AnalysisError(f'only {n} strip/join sites located in the serializer')
+    return res
+
+
 def _shared(ctx, counts) -> list:
     """is_xml_codepoint decides which characters parse-json / json-to-xml replace (R09.3)"""
     from .c09_strings import r09_3, r09_6
@@ -322,7 +377,7 @@ def run(ctx) -> dict:
     state = r19_5(ctx, counts, lambda f: f.module.name == 'elementpath.serialization', 0)
     return {
         'results': [r1, r17_2(ctx, counts), r17_3(ctx, counts), r17_4(ctx, counts), r17_5(ctx, counts),
-                    pure, state]
+                    r17_6(ctx, counts), pure, state]
         + _shared(ctx, counts),
         'counts': counts,
         'explanation':
